@@ -42,6 +42,7 @@ type Item struct {
 	Level    string   `json:"level"`
 	Tokens   []string `json:"tokens"`
 	Open     bool     `json:"open,omitempty"`
+	Repeat   int      `json:"repeat,omitempty"` // Bundling: the flag letter written Repeat times in one token (`-vvvv...`)
 }
 
 // Scenario - program, interpreted items, optional stop and raw tail.
@@ -330,6 +331,9 @@ func Fold(t *Tree, s *Scenario) *Expect {
 		case IFlag:
 			f.called(it.Opt, it.Key)
 			f.applyFlag(it.Opt)
+			for k := 1; k < it.Repeat; k++ {
+				f.applyFlag(it.Opt)
+			}
 		case IValued:
 			f.called(it.Opt, it.Key)
 			f.applyValue(it.Opt, it.Vals[0], true)
